@@ -188,6 +188,14 @@ Proof.
   destruct (cstep_length s i s' E) as [L1 L2]. destruct (IH s') as [L3 L4]. split; congruence.
 Qed.
 
+Lemma cexec_init_length : forall rc left n ls,
+  length (c_pcs (cexec (cinit rc left n) ls)) = n /\ c_left (cexec (cinit rc left n) ls) = left.
+Proof.
+  intros rc left n ls. destruct (cexec_length ls (cinit rc left n)) as [H1 H2]. split.
+  - rewrite H1. unfold cinit. cbn [c_pcs]. apply repeat_length.
+  - rewrite H2. reflexivity.
+Qed.
+
 (* ---- safety in every reachable state *)
 Lemma cinv_safe : forall s, cinv s ->
   c_panic s = false /\ c_unregs s <= 1 /\ (forall i c, nth_error (c_pcs s) i = Some (CDone c) -> c = 2 \/ c = (if c_left s then 1 else 0)).
@@ -306,3 +314,29 @@ Proof.
   split; [destruct (c_nil s); [reflexivity | cbn [b2z] in H6; lia]|].
   split; [destruct (c_wheld s); [cbn [b2z] in H2; lia | reflexivity] | lia].
 Qed.
+
+(* ---- the statement of C13_concurrent_close / C12_concurrent_close *)
+Lemma concurrent_close : forall left n ls,
+  let s := cexec (cinit true left (S n)) ls in
+  (c_panic s = false /\ c_unregs s <= 1 /\
+   (forall i c, nth_error (c_pcs s) i = Some (CDone c) -> c = 2 \/ c = (if left then 1 else 0))) /\
+  (all_returned s = false -> exists i s', cstep s i = Some s') /\
+  (all_returned s = true ->
+     cnt is_win (c_pcs s) = 1 /\ cnt lost (c_pcs s) = Z.of_nat n /\
+     c_unregs s = 1 /\ c_registered s = false /\ c_closed s = true /\ c_wheld s = false /\ c_pending s = 0) /\
+  (forall ls' s', crun_eff (cinit true left (S n)) ls' = Some s' -> Z.of_nat (length ls') <= 9 * Z.of_nat (S n)).
+Proof.
+  intros left n ls s.
+  assert (Hi : cinv s) by (apply cinv_exec; apply cinv_init).
+  destruct (cexec_init_length true left (S n) ls) as [Hlen Hleft].
+  change (cexec (cinit true left (S n)) ls) with s in Hlen, Hleft.
+  split.
+  - destruct (cinv_safe s Hi) as [S1 [S2 S3]]. split; [exact S1|]. split; [exact S2|].
+    intros i c E. rewrite <- Hleft. exact (S3 i c E).
+  - split; [exact (cprogress s Hi)|]. split.
+    + intros Hd. destruct (call_returned s Hi ltac:(rewrite Hlen; apply Nat.lt_0_succ) Hd) as [R1 [R2 [R3 [R4 [R5 [_ [R7 R8]]]]]]].
+      split; [exact R1|]. split; [rewrite R2, Hlen, Nat2Z.inj_succ; lia|]. repeat split; assumption.
+    + intros ls' s' H. pose proof (crun_eff_bound ls' _ _ H) as Hb. rewrite cmeasure_init in Hb.
+      pose proof (cmeasure_nonneg s'). lia.
+Qed.
+
